@@ -25,7 +25,7 @@ pub fn def() -> PropDef {
     PropDef {
         id: "C16",
         level: "model_checking",
-        rule: "explicit-state search over a store holding 5 documents — three whose namespace ids are byte-order neighbours (..FE, ..FF, successor; populated through the raw-put hook with read-only capability) and two real-key documents — with events {write entry 1/2, delete prefix, register peer, set policy, open, close, remove, re-create, import the write capability (an upgrade for a document created read-only)} per document, from the empty and from a fully populated initial state; after every event every document's complete observable content is compared with a per-document reference, removal must be refused iff open, and content_hashes() must equal the hashes of all entries held; a second family spawns a real Engine with a garbage-collection protect handler and, after every step of three scripts (0..N writes, prefix deletions, duplicate contents, removals; N = 140 quick / 600 thorough, crossing every channel capacity on the way), calls the collector's callback and requires the live set it receives to equal the hashes held; canonical state = rendering of the complete observable store content; non-trivial = histories containing a removal of a non-empty document",
+        rule: "explicit-state search over a store holding 5 documents — three whose namespace ids are byte-order neighbours (..FE, ..FF, successor; populated through the raw-put hook with read-only capability) and two real-key documents — with events {write entry 1/2, delete prefix, register peer, set policy, open, close, remove, re-create, import the write capability (an upgrade for a document created read-only)} per document, from the empty and from a fully populated initial state; after every event every document's complete observable content is compared with a per-document reference, removal must be refused iff open, and content_hashes() must equal the hashes of all entries held; a second family spawns a real Engine with a garbage-collection protect handler and, after every step of three scripts (0..N writes, prefix deletions, duplicate contents, removals; N = 140 quick / 600 thorough, crossing every channel capacity on the way), calls the collector's callback and requires the live set it receives to equal the hashes held, and once more after the docs engine was shut down (the collector must then be stopped, not handed a smaller set); canonical state = rendering of the complete observable store content; non-trivial = histories containing a removal of a non-empty document",
         assumptions: &["entries of the neighbouring-id documents carry arbitrary signatures (written below the validation layer), which the properties observed here never inspect"],
         bound: |t| match t {
             Tier::Quick => json!({"from_empty": "depth <= 3", "from_populated": "depth <= 4", "events": 43}),
@@ -658,7 +658,25 @@ fn gc_run(name: &str, script: &[GcStep], report: &mut Report, ordinal: u64) -> (
                 break;
             }
         }
+        // the docs engine stops while the blob store (and its collector) lives on: the store can
+        // no longer be asked what is held, so the collector must not be told to go ahead with a
+        // set that misses held hashes
+        let want: BTreeSet<[u8; 32]> = model.iter().flat_map(|m| m.values().map(|h| *h.as_bytes())).collect();
         let _ = node.engine.shutdown().await;
+        let mut live = std::collections::HashSet::new();
+        let outcome = (node.cb)(&mut live).await;
+        let live: BTreeSet<[u8; 32]> = live.into_iter().map(|h| *h.as_bytes()).collect();
+        let continue_ = matches!(outcome, iroh_blobs::store::ProtectOutcome::Continue);
+        checks += 1;
+        if continue_ && !want.is_subset(&live) {
+            report.violation(
+                "gc_protection_set_equals_hashes_held",
+                json!({"engine_path": true, "collector_told_to_continue": true, "after_engine_shutdown": true, "missing": want.difference(&live).count()}),
+                json!({"family": "gc_protect", "script": name, "upto": script.len()}),
+                format!("script {name}: after the docs engine was shut down the collector was told to continue with {} protected hashes while the documents hold {} ({} of them unprotected)", live.len(), want.len(), want.difference(&live).count()),
+                ordinal,
+            );
+        }
         Ok(())
     });
     if let Err(e) = res {
